@@ -9,6 +9,8 @@ let model_limit = 40000   (* total payload bytes up to which the byte-level mode
 type sideact = { bytes : int; shut : char }   (* shut: ' ' 'h' 'f' 'a' 'u' *)
 
 let parse_side (s : string) : sideact =
+  (* S = streams until its write fails: counts as an end that is gone ('f') and unobserved *)
+  if s = "S" then { bytes = 0; shut = 'S' } else
   let n = String.length s in
   let shut, body =
     if n > 0 && String.contains "hfau" s.[n-1] then s.[n-1], String.sub s 0 (n-1) else ' ', s in
@@ -32,9 +34,10 @@ exception Bad_out of string
 
 let aborts (a : sideact) = a.shut = 'a' || a.shut = 'u'
 (* after any full close of an end its peer may legitimately read a reset instead of EOF *)
-let gone (a : sideact) = aborts a || a.shut = 'f'
+let gone (a : sideact) = aborts a || a.shut = 'f' || a.shut = 'S'
 let fin_of (a : sideact) : fin =
-  if aborts a then FinAbort else if a.shut <> ' ' then FinShut else FinNone
+  if aborts a then FinAbort else if a.shut = 'S' then FinAbort   (* ends by closing a socket the proxy has reset *)
+  else if a.shut <> ' ' then FinShut else FinNone
 
 (* "t123+E" / "c#".  A read error X counts as end-of-stream only once the
    other end has aborted (allow_x); otherwise it is reported. *)
@@ -107,7 +110,7 @@ let judge _name ins outs =
   | "TUN" :: via :: e :: b :: phtoks ->
       (* via = D | M | F[<code>[c|r]] with an optional listener suffix +s | +w *)
       let via, lkind = match String.index_opt via '+' with
-        | Some i -> String.sub via 0 i, via.[i+1]
+        | Some i -> String.sub via 0 i, (if via.[i+1] = 't' then 'w' else via.[i+1])
         | None -> via, 't' in
       let fcode =
         if String.length via > 1 && via.[0] = 'F' then begin
@@ -127,6 +130,8 @@ let judge _name ins outs =
       let early_shut = e.[String.length e - 1] = 'h' in
       let e = if early_shut then String.sub e 0 (String.length e - 1) else e in
       let phtoks = if early_shut then "ch/t" :: phtoks else phtoks in
+      let pre, phtoks = List.partition (fun t -> String.length t > 1 && t.[0] = 'G') phtoks in
+      let want_pre = List.map (fun t -> "g200:" ^ String.sub t 1 (String.length t - 1)) pre in
       let probe, phtoks = match List.rev phtoks with
         | ("Pq" | "Pr") :: r -> true, List.rev r
         | _ -> false, phtoks in
@@ -151,6 +156,12 @@ let judge _name ins outs =
       let nphases = List.map (fun (c, t) ->
           { np_c = n_of_int c.bytes; np_cshut = (c.shut <> ' ');
             np_t = n_of_int t.bytes; np_tshut = (t.shut <> ' ') }) phases in
+      let gouts, outs = List.partition (fun t -> String.length t > 1 && t.[0] = 'g' && t <> "g") outs in
+      if gouts <> want_pre then
+        (* the plain exchange before the CONNECT is not this property's subject, but without it
+           the case says nothing *)
+        VDisagree ("pre-exchange want=" ^ String.concat "_" want_pre ^ " got=" ^ String.concat "_" gouts)
+      else
       (match outs with
        | "PANIC" :: _ -> VPropfail ("panic", "harness-recovered-panic")
        | s :: rest when not (status_ok want_n (got_status s)) || rest = [] ->
@@ -163,7 +174,15 @@ let judge _name ins outs =
                 | [r] -> List.rev acc, r
                 | x :: tl -> split (x :: acc) tl
                 | [] -> raise (Bad_out "empty") in
+              if List.mem "BLOCKED" rest then VPropfail ("delivery_blocked", String.concat "_" outs) else
+              let rest, ktok = split [] rest in
+              let krel = match ktok with
+                | "K1" -> Some true | "K0" -> Some false | "K-" -> None
+                | t -> raise (Bad_out t) in
               let obtoks, rtok = split [] rest in
+              (* S1/S0 follow the token of a phase with a streaming side *)
+              let streams = List.filter (fun t -> t = "S1" || t = "S0") obtoks in
+              let obtoks = List.filter (fun t -> t <> "S1" && t <> "S0") obtoks in
               (* post-mortem probe: ... W? Q? before the R token *)
               let obtoks, probe_res =
                 if not probe then obtoks, None
@@ -189,7 +208,15 @@ let judge _name ins outs =
                                Printf.sprintf "phase=%d got=%s" (int_of_nat k) (String.concat "_" outs))
                 | None ->
                     VPropfail ("release", "got=" ^ String.concat "_" outs)
-              end else if (match probe_res with Some (w, q) -> not (probe_ok w q) | None -> false) then begin
+              end else if List.exists (fun t -> not (stream_ok (t = "S1"))) streams then
+                VPropfail ("streaming_peer_not_cut_off",
+                           "an-end-kept-writing-after-its-peer-aborted-and-its-write-never-failed got=" ^ String.concat "_" outs)
+              else if not (target_release_ok krel) then
+                VPropfail ("target_conn_not_closed",
+                           "the-proxy-never-called-Close-on-the-connection-it-dialled got=" ^ String.concat "_" outs)
+              else if not (target_release_agrees after_tunnel_here krel) then
+                VDisagree "after-tunnel-model-differs(Gen_Ret.connect_defers_cconn_close vs observation)"
+              else if (match probe_res with Some (w, q) -> not (probe_ok w q) | None -> false) then begin
                 match probe_res with
                 | Some (_, true) ->
                     VPropfail ("tunnel_bytes_parsed_as_http",
